@@ -196,6 +196,11 @@ impl Write for File {
     fn write(&mut self, buf: &[u8]) -> io::Result<usize> {
         world().write(self.h, buf)
     }
+    // (std's own types implement this with one `writev`: all buffers in order, possibly short)
+    fn write_vectored(&mut self, bufs: &[io::IoSlice<'_>]) -> io::Result<usize> {
+        let joined: Vec<u8> = bufs.iter().flat_map(|b| b.iter().copied()).collect();
+        self.write(&joined)
+    }
     fn flush(&mut self) -> io::Result<()> {
         world().flush(self.h)
     }
@@ -203,6 +208,11 @@ impl Write for File {
 impl Write for &File {
     fn write(&mut self, buf: &[u8]) -> io::Result<usize> {
         world().write(self.h, buf)
+    }
+    // (std's own types implement this with one `writev`: all buffers in order, possibly short)
+    fn write_vectored(&mut self, bufs: &[io::IoSlice<'_>]) -> io::Result<usize> {
+        let joined: Vec<u8> = bufs.iter().flat_map(|b| b.iter().copied()).collect();
+        self.write(&joined)
     }
     fn flush(&mut self) -> io::Result<()> {
         world().flush(self.h)
@@ -476,6 +486,11 @@ impl Write for Stdout {
         let _held = HeldStdout::acquire();
         line_buffer::write(buf)
     }
+    // (std's own types implement this with one `writev`: all buffers in order, possibly short)
+    fn write_vectored(&mut self, bufs: &[io::IoSlice<'_>]) -> io::Result<usize> {
+        let joined: Vec<u8> = bufs.iter().flat_map(|b| b.iter().copied()).collect();
+        self.write(&joined)
+    }
     fn flush(&mut self) -> io::Result<()> {
         let _held = HeldStdout::acquire();
         line_buffer::flush()
@@ -485,6 +500,11 @@ impl Write for StdoutLock {
     fn write(&mut self, buf: &[u8]) -> io::Result<usize> {
         let _held = HeldStdout::acquire();
         line_buffer::write(buf)
+    }
+    // (std's own types implement this with one `writev`: all buffers in order, possibly short)
+    fn write_vectored(&mut self, bufs: &[io::IoSlice<'_>]) -> io::Result<usize> {
+        let joined: Vec<u8> = bufs.iter().flat_map(|b| b.iter().copied()).collect();
+        self.write(&joined)
     }
     fn flush(&mut self) -> io::Result<()> {
         let _held = HeldStdout::acquire();
